@@ -110,9 +110,10 @@ func (w *world) checkBatches(resp *replica, reqSet map[string]bool, theirHeads, 
 			w.violate("C09", "batches.heads.final", fmt.Sprintf("%s: single batch announces %s, responder heads are %s", ctxt, join(sortedCopy(batches[0].heads)), join(sortedCopy(resp.tree.Heads()))))
 		}
 	}
-	// the snapshot path sent along is the responder's
+	// the snapshot path sent along is the responder's: its root, that root's snapshot, … down to the tree root
+	// (computed by the harness from the stored snapshot ids, not by asking the tree again)
 	if len(batches) > 0 {
-		p, _ := resp.tree.SnapshotPath()
+		p := w.snapChain(resp.tree.Root().Id)
 		for bi, b := range batches {
 			if !eqStr(b.path, p) {
 				w.violate("C09", "batches.path", fmt.Sprintf("%s: batch %d carries path %s, responder path is %s", ctxt, bi+1, join(b.path), join(p)))
@@ -310,4 +311,18 @@ func (w *world) applyToClone(resp, req *replica, batches []loaderBatch, limit in
 	}
 	// the clone's ops are not part of the ongoing history
 	w.trace = w.trace[:mark]
+}
+
+// snapChain: root, its snapshot, that one's snapshot, … (from the snapshot ids the harness learned from storage).
+func (w *world) snapChain(id string) []string {
+	var res []string
+	for guard := 0; id != "" && guard < 100000; guard++ {
+		res = append(res, id)
+		ci := w.info[id]
+		if ci == nil {
+			break
+		}
+		id = ci.snap
+	}
+	return res
 }
